@@ -65,8 +65,10 @@ def op_line(op: list, flag: Optional[int] = None) -> str:
     `flag` = the power flag the real node showed after the operation (surface "net": ticks and power requests)."""
     if op[0] == "tick" and flag is not None:
         return f"tick {flag}"
-    if op[0] in ("pre", "tick", "osscan"):
+    if op[0] in ("pre", "tick", "osscan", "setup"):
         return op[0]
+    if op[0] == "load":
+        return "load " + cfg_spec(op[1])
     if op[0] == "power":
         return f"power {1 if flag is None else flag}"
     if op[0] == "raw":
@@ -80,6 +82,20 @@ def op_line(op: list, flag: Optional[int] = None) -> str:
     if op[0] == "cfile":
         req = req[:4] + ["1" if req[4] else "0"]
     return " ".join(["req"] + [w(str(t)) for t in req])
+
+
+def stored_name(name: str, ftype: Optional[str]) -> str:
+    """The name a configured file's `File` object takes (File.__init__): an extension-less name gets `.<type>` appended."""
+    if "." in name or not ftype or ftype.upper() == "UNKNOWN":
+        return name
+    return f"{name}.{ftype.lower()}"
+
+
+def cfg_spec(config: List[dict]) -> str:
+    if not config:
+        return "-"
+    return ";".join("|".join([w(fo["folder_name"])] + [f"{w(fi['file_name'])}>{w(stored_name(fi['file_name'], fi.get('type')))}"
+                                                      for fi in fo.get("files", [])]) for fo in config)
 
 
 def model_lines(case: dict, flags: Optional[List[Optional[int]]] = None) -> List[str]:
@@ -263,6 +279,12 @@ class Impl:
         self.t = 0
         self.pc = None
         self.via_actions = surface == "action"
+        if surface == "cfg":
+            # the node is built by the first operation (`load`): Computer.from_config with the configured folders
+            from primaite.simulator.sim_container import Simulation
+            self.sim = Simulation()
+            self.fs = None
+            return
         if surface == "net":
             # a small network: the computer under test, a switch, a second computer; everything goes through the simulation
             from primaite.simulator.network.hardware.nodes.host.computer import Computer
@@ -376,6 +398,16 @@ class Impl:
 
     def apply(self, op: list) -> str:
         k = op[0]
+        if k == "load":  # HostNode.__init__ walks the configured folders; an exception leaves no node
+            from primaite.simulator.network.hardware.nodes.host.computer import Computer
+            pc = Computer.from_config({"type": "computer", "hostname": "pc", "ip_address": "192.168.1.2", "subnet_mask": "255.255.255.0",
+                                       "start_up_duration": 0, "shut_down_duration": 0, "folders": op[1]})
+            self.sim.network.add_node(pc)
+            self.pc, self.fs = pc, pc.file_system
+            return "success"
+        if k == "setup":  # Simulation -> Network -> Node -> FileSystem.setup_for_episode
+            self.sim.setup_for_episode(episode=0)
+            return "success"
         if k == "power":  # the answer of a power request is C12's matter; the model is told the resulting flag
             self.sim.apply_request(["network", "node", "pc", op[1]])
             return "success"
@@ -426,7 +458,15 @@ def _tally_delta(impl: "Impl", op: list) -> Optional[Tuple[int, int]]:
     return None  # api_create: known from the answer
 
 
-def run_impl(case: dict) -> Tuple[List[str], List[List[str]], List[Optional[int]]]:
+def _corrupt_deleted(fs) -> Tuple[set, set]:
+    """uuids of files / folders that are CORRUPT and deleted at once (the health x deletion corner)."""
+    folders = list(fs.folders.values()) + list(fs.deleted_folders.values())
+    files = {f.uuid for g in folders for f in list(g.files.values()) + list(g.deleted_files.values())
+             if f.deleted and f.health_status.name == "CORRUPT"}
+    return files, {g.uuid for g in folders if g.deleted and g.health_status.name == "CORRUPT"}
+
+
+def run_impl(case: dict) -> Tuple[List[str], List[List[str]], List[Optional[int]], Dict[str, int]]:
     """Output lines aligned with model_lines(case, flags), the oracle's verdict after every operation, and the power flag
     the real node showed after every tick / power request (surface "net")."""
     impl = Impl(case["surface"], case.get("restore_duration"), case.get("scan_duration"), case.get("node"))
@@ -434,25 +474,41 @@ def run_impl(case: dict) -> Tuple[List[str], List[List[str]], List[Optional[int]
     verdicts: List[List[str]] = []
     flags: List[Optional[int]] = []
     tally: Optional[List[int]] = [0, 0]  # successful creations / deletions since the last pre_timestep (None: not tracked)
+    stats: Dict[str, int] = {}
     for op in case["ops"]:
         k = op[0]
+        cd_files, cd_folders = _corrupt_deleted(impl.fs) if impl.fs is not None else (set(), set())
         delta = _tally_delta(impl, op) if k.startswith("api_") and k != "api_create" else None
         try:
             status = impl.apply(op)
         except Exception as e:  # a well-formed request must answer, not raise
             status = "raised"
             # a direct API call may raise and a malformed path is C05's matter: there the answer is only compared
-            verdicts.append([] if (k.startswith("api_") or k == "raw") else ["raised:" + type(e).__name__])
+            verdicts.append([] if (k.startswith("api_") or k in ("raw", "load")) else ["raised:" + type(e).__name__])
             flags.append(impl.power_flag() if k in ("tick", "power") else None)
-            out.append(f"{status} | {dump_impl(impl.fs, impl.pc)} | {describe_impl(impl.fs)}")
+            out.append(status if impl.fs is None else f"{status} | {dump_impl(impl.fs, impl.pc)} | {describe_impl(impl.fs)}")
+            if impl.fs is None:
+                break  # the configuration was refused: there is no node to go on with
             continue
         flags.append(impl.power_flag() if k in ("tick", "power") else None)
         out.append(f"{status} | {dump_impl(impl.fs, impl.pc)} | {describe_impl(impl.fs)}")
-        bad = oracle(impl.fs, after_pre=(k == "pre"))
+        if cd_files or cd_folders:  # measured coverage of the health x deletion corner: who brought a corrupt deleted item back
+            kind = k + (":" + str(op[-1]) if k in ("fverb", "xverb", "sverb") else "")
+            stats["health:ops-with-a-corrupt-deleted-item-present"] = stats.get("health:ops-with-a-corrupt-deleted-item-present", 0) + 1
+            live_files = {f.uuid for g in impl.fs.folders.values() for f in g.files.values()}
+            back = len(cd_files & live_files)
+            if back:
+                stats[f"health:corrupt-deleted-file-made-live-by:{kind}"] = stats.get(f"health:corrupt-deleted-file-made-live-by:{kind}", 0) + back
+            fback = len(cd_folders & set(impl.fs.folders))
+            if fback:
+                stats[f"health:corrupt-deleted-folder-made-live-by:{kind}"] = stats.get(f"health:corrupt-deleted-folder-made-live-by:{kind}", 0) + fback
+        bad = oracle(impl.fs, after_pre=(k in ("pre", "setup")))
         # the counters count THIS tick's successful creations / deletions only (nothing left over from an earlier tick),
         # read where the game reads them: the node's entry in the simulation's describe_state()
-        if k == "pre":
+        if k in ("pre", "setup"):
             tally = [0, 0]
+        elif k == "load":
+            tally = [sum(len(fo.get("files", [])) for fo in op[1]), 0]  # until setup_for_episode the configured files are counted
         elif k == "raw":
             tally = None  # an over-long path may still be a creation: not tracked until the next tick starts
         elif tally is not None:
@@ -463,14 +519,14 @@ def run_impl(case: dict) -> Tuple[List[str], List[List[str]], List[Optional[int]
             elif delta is not None:
                 tally[0] += delta[0]
                 tally[1] += delta[1]
-        if k in ("pre", "tick") or impl.pc is None:
+        if k in ("pre", "tick", "setup", "load") or impl.pc is None:
             sim_state = impl.sim.describe_state() if impl.pc is not None else None
             rep = (impl.reported(sim_state) if impl.pc is not None else
                    {"num_file_creations": impl.fs.num_file_creations, "num_file_deletions": impl.fs.num_file_deletions})
             if "num_file_creations" not in rep or "num_file_deletions" not in rep:
                 bad.append("node-does-not-report-its-file-system")
             else:
-                if k == "pre" and (rep["num_file_creations"], rep["num_file_deletions"]) != (0, 0):
+                if k in ("pre", "setup") and (rep["num_file_creations"], rep["num_file_deletions"]) != (0, 0):
                     bad.append("reported-counters-zero-at-tick-start")
                 if tally is not None and [rep["num_file_creations"], rep["num_file_deletions"]] != tally:
                     bad.append("counters-count-this-tick-only")
@@ -486,7 +542,7 @@ def run_impl(case: dict) -> Tuple[List[str], List[List[str]], List[Optional[int]
                     if (ob.get(key, 0) != 0) != (on and cnt != 0):
                         bad.append("host-observation-shows-this-tick-only")
         verdicts.append(sorted(set(bad)))
-    return out, verdicts, flags
+    return out, verdicts, flags, stats
 
 
 # ------------------------------------------------------------------------------------------ generation
@@ -771,3 +827,74 @@ def gen_net_case(rng: Rng, max_ticks: int = 10) -> dict:
             g_tick()
     return {"surface": "net", "restore_duration": rng.choice([None, 1, 1, 2, 3]), "scan_duration": rng.choice([None, 1, 2]),
             "node": node, "ops": ops}
+
+
+# ------------------------------------------------------------------------------------------ health x deletion families
+def health_alphabet() -> List[list]:
+    """Bounded-exhaustive family H (after the fixed prefix `create fa/a`): corrupt, delete and restore at file and folder level."""
+    return [["xverb", "fa", "a", "corrupt"], ["fverb", "fa", "corrupt"], ["dfile", "fa", "a"], ["dfolder", "fa"], ["rfile", "fa", "a"],
+            ["xverb", "fa", "a", "restore"], ["rfolder", "fa"], ["tick"]]
+
+
+def gen_health_case(rng: Rng, max_ops: int = 24) -> dict:
+    """corrupt -> delete -> restore churn at file and folder level, on every surface (requests, agent actions, a node in a network)."""
+    surface = rng.choice(["fs", "node", "action", "action", "net"])
+    folders, files = ["fa", "fb"][: rng.range(1, 2)], ["a", "b"][: rng.range(1, 2)]
+    ops: List[list] = [["cfile", F, x, False] for F in folders for x in files if rng.chance(3, 4)]
+    for _ in range(rng.range(4, max_ops)):
+        F, x = rng.choice(folders), rng.choice(files)
+        k = rng.below(20)
+        if k < 4:
+            ops.append(rng.choice([["xverb", F, x, "corrupt"], ["sverb", F, x, "corrupt"], ["fverb", F, "corrupt"]]))
+        elif k < 8:
+            ops.append(rng.choice([["dfile", F, x], ["dfile", F, x], ["fdel", F, x], ["dfolder", F]]))
+        elif k < 13:
+            ops.append(rng.choice([["rfile", F, x], ["rfile", F, x], ["xverb", F, x, "restore"], ["sverb", F, x, "restore"], ["rfolder", F],
+                                   ["fverb", F, "restore"]]))
+        elif k < 16:
+            ops.append(["tick"])
+        elif k < 17:
+            ops.append(rng.choice([["xverb", F, x, "repair"], ["fverb", F, "repair"], ["xverb", F, x, "scan"], ["fverb", F, "scan"]]))
+        elif k < 18:
+            ops.append(["cfile", F, x, rng.choice([False, True])])
+        elif k < 19:
+            ops.append(rng.choice([["api_copy", F, x, rng.choice(folders)], ["api_move", F, x, rng.choice(folders + ["fc"])]]))
+        else:
+            ops.append(["pre"])
+    case = {"surface": surface, "restore_duration": rng.choice([1, 1, 2, 3, None]), "scan_duration": rng.choice([None, 1]), "ops": ops}
+    if surface == "net":
+        case["node"] = {"up": 0, "down": 0, "nscan": 1, "on": True, "actions": rng.chance(1, 2)}
+    return case
+
+
+# ------------------------------------------------------------------------------------------ configured initial state (surface "cfg")
+CFG_FILES = [("a.txt", None), ("a.txt", "TXT"), ("a", "TXT"), ("a", None), ("a", "UNKNOWN"), ("b", "DOCX"), ("b.docx", None), ("b", "PDF"),
+             ("c.unknownext", None)]
+
+
+def gen_cfg_case(rng: Rng) -> dict:
+    """A host whose file system is configured: folders listed twice, files listed twice (literally, or only once the extension is
+    appended), the same name in two folders, empty folders; then setup_for_episode and a few operations of the first tick."""
+    config = []
+    for _ in range(rng.range(0, 4)):
+        fo = {"folder_name": rng.choice(["fa", "fa", "fb", "root"])}
+        if rng.chance(3, 4):
+            fo["files"] = []
+            for _ in range(rng.range(0, 3)):
+                name, typ = rng.choice(CFG_FILES)
+                fi = {"file_name": name}
+                if typ is not None:
+                    fi["type"] = typ
+                if rng.chance(1, 2):
+                    fi["size"] = rng.choice([0, 10, 2048])
+                fo["files"].append(fi)
+        config.append(fo)
+    ops: List[list] = [["load", config]]
+    if rng.chance(7, 8):
+        ops.append(["setup"])
+    names = sorted({stored_name(fi["file_name"], fi.get("type")) for fo in config for fi in fo.get("files", [])}) or ["a.txt"]
+    folders = sorted({fo["folder_name"] for fo in config}) or ["fa"]
+    for _ in range(rng.range(0, 8)):
+        op = gen_op(rng, folders, names[:2])
+        ops.append(op)
+    return {"surface": "cfg", "restore_duration": None, "ops": ops}
